@@ -6,6 +6,7 @@ mod c09;
 mod c11;
 mod c12;
 mod c13;
+mod c58;
 mod life;
 
 fn main() {
@@ -21,5 +22,6 @@ fn main() {
         ("C11", c11::run_pure),
         ("C12", c12::run),
         ("C13", c13::run),
+        ("C58", c58::run),
     ])
 }
